@@ -2514,7 +2514,16 @@ class Glommer:
 
         # this "freezes" the scope in at the time of construction
         self.scope = ChainMap(dict(scope))
-        self.scope[TargetRegistry] = TargetRegistry(register_default_types=register_default_types)
+        registry = TargetRegistry(register_default_types=register_default_types)
+        # operations added to the parent registry after its construction
+        # (e.g. 'assign' and 'delete', registered by glom.mutation) are
+        # known to the new registry, too
+        parent_registry = scope.get(TargetRegistry)
+        if parent_registry is not None:
+            for op_name, auto_func in parent_registry._op_auto_map.items():
+                if op_name not in registry._op_auto_map:
+                    registry.register_op(op_name, auto_func)
+        self.scope[TargetRegistry] = registry
 
     def register(self, target_type, **kwargs):
         """Register *target_type* so :meth:`~Glommer.glom()` will
